@@ -3,9 +3,9 @@
 set -e
 id=$1; wt=$2; props=$3
 mkdir -p /verif/seeded/$id
-cp -r $wt/MUTANT/* /verif/seeded/$id/ 2>/dev/null || true
+test -d $wt && cp -r $wt/MUTANT/* /verif/seeded/$id/ 2>/dev/null || true
 rm -f /verif/seeded/$id/.foreign* 
-(cd $wt && git diff -- src) > /verif/seeded/$id/patch.diff
+test -d $wt && (cd $wt && git diff -- src) > /verif/seeded/$id/patch.diff.new && mv /verif/seeded/$id/patch.diff.new /verif/seeded/$id/patch.diff
 /verif/engine/seed_eval.py $id /verif/seeded/$id/patch.diff ${props:+--props $props} > /verif/seeded/$id/eval.json
 python3 - "$id" <<'PY'
 import json,sys
